@@ -498,6 +498,12 @@ CHECKS["C08"]["stages"].append(
      "thorough": {"shards": 16, "checks": 4000, "timeout_s": 2400}})
 
 CHECKS["C10"]["stages"].append(
+    {"name": "server-stream", "pkg": "srvworld", "run": "^TestC10TCP$",
+     "quick": {"shards": 2, "checks": 1500, "timeout_s": 420},
+     "thorough": {"shards": 8, "checks": 5000, "size": 40, "timeout_s": 2400}})
+CHECKS["C10"]["claim"] += (" Stage server-stream: the TCP world (pion's server on a stream listener) with a ConnectionBind that is refused and "
+                           "another request right behind it in the same segment: the connection stays framed and both are answered, in order.")
+CHECKS["C10"]["stages"].append(
     {"name": "native-fuzz", "pkg": "pure", "run": "^$", "fuzz_only": True,
      "thorough": {"shards": 1, "fuzz": "^FuzzC10$", "fuzztime": "90s", "parallel": 16, "timeout_s": 600}})
 
